@@ -36,6 +36,10 @@ META = dict(
          "further family: run_receiver_task cancelled by the application that embeds it while sync functions (with durations) wait in a "
          "pool of 1..3 threads (recv_props.gen_live_cancel): a message acknowledged under when_executed / when_saved must have entered its function, un-run un-acknowledged messages are not claimed; "
          "part of the command-line scenarios is run by the real start_listen on the loop it creates; "
+         "the event loop's task factory is None unless the application (~6 percent of the scenarios: a plain / Task-subclass factory of "
+         "its own) or the code under test sets one - whatever is set on the running loop takes effect (the harness tags tasks apart "
+         "from it); further family (recv_props.gen_relisten): ONE Receiver object listens again after listen() failed while every slot "
+         "was busy (callbacks of the earlier session still running); "
          "non-trivial iff >= 2 valid messages and (a stop instant, or N, or a malformed / unknown message, "
          "or a backlog > A+P+1); distinct by canonical scenario",
     trusted_base=["model: coq/theories/RecvLTS.v; defective variant coq/findings/FindingsRecv.v",
@@ -55,6 +59,9 @@ PROF_BACKLOG = dict(backlog=True, stop_p=.3, n_p=.5, ends_p=.1, wtt_p=.2, wire_p
 PROF_LIVE = dict(stop_p=.4, n_p=.3, ends_p=.15, wtt_p=.2, wire_p=.2, reg_p=.3)
 # run_receiver_task cancelled by the application that embeds it while sync functions wait in a small pool (recv_props.gen_live_cancel)
 PROF_CANCEL = dict(stop_p=.12, n_p=.08, ends_p=.1, wtt_p=.08, slowcancel=.05, aw_p=.12, outage_p=.05, wire_p=.1)
+
+# one Receiver object that listens again after listen() failed while every slot was busy (recv_props.gen_relisten, mode fault only)
+PROF_RELISTEN = dict(wire_p=.2, reg_p=.1, relisten_stop_p=0, relisten_any_p=.1)
 
 
 def oracle(sc, obs):
@@ -109,6 +116,11 @@ def oracle(sc, obs):
                                 expected="a message that is acknowledged (when_executed / when_saved) has entered its task function once",
                                 sig=dict(kind="acked-never-run", d16=R.d16_facts(sc, f, i, f.acks[i][0]))))
         missing = []
+    if f.same_rcv and (f.limit_only or f.slot_lost):
+        # ONE Receiver object listening again (recv_props.gen_relisten) after a session of it ended while its runner held a slot it
+        # had given to no callback: that slot is gone by construction of runner(), a message the next session takes may wait for
+        # ever - not claimed (such a second listen() is not promised the full capacity)
+        missing = []
     older = [i for i in missing if not f.final(i)]
     if older:
         out.append(dict(what="a valid message taken from the broker and handed to a callback before listen() failed never entered "
@@ -127,7 +139,8 @@ def oracle(sc, obs):
     else:
         # cut at the horizon (far beyond every finite duration): messages may stay queued only while every slot is held
         A = sc["A"] if R.limited(sc) else None
-        held = len([i for i in f.processing_at_end() if f.final(i)])      # (slots of the session that is listening at the cut)
+        # (slots of the session that is listening at the cut; one Receiver object over several sessions: they share the slots)
+        held = len([i for i in f.processing_at_end() if f.final(i) or f.same_rcv])
         if missing and (A is None or held < A):
             out.append(dict(what="a valid message taken from the broker never entered its task function although a slot is free",
                             observed=dict(taken=taken, never_run=missing, processing_at_cut=held), expected="exactly one body entry",
@@ -191,6 +204,8 @@ def run(ctx):
     d16_reg = R.d16_registered("C01")
     rep.extra["known_finding_D16_registered_for_C01"] = d16_reg
     scs += [R.gen_live_cancel(r5, dict(PROF_CANCEL, presubmit_restricted=not d16_reg)) for _ in range(ctx.n(40, 2000))]
+    r6 = ctx.sub_rng("gen-relisten")         # own stream: ONE Receiver object over several listen() sessions (it listens again
+    scs += [R.gen_relisten(r6, PROF_RELISTEN) for _ in range(ctx.n(30, 1500))]      # after listen() failed with every slot busy)
     broken = explore(ctx, rep, scs, "main")
     if not ctx.quick:
         broken = explore(ctx, rep, R.grid_scenarios(), "grid") or broken
